@@ -106,6 +106,9 @@ package interp
 //@   opt safety = off
 //@   requires interp != nil && interp.frame != nil
 //@   requires [assume] node-of-this-interpreter: n != nil ==> n.interp == interp && n.start != nil && n.start.interp == interp
+//@   -- every run (re)binds the frame it runs in to the interpreter's CURRENT done channel: blocking
+//@   -- operations of this evaluation race that channel, not the (closed) one of an earlier cancelled one
+//@   ensures [local:f] frame-listens-to-the-current-done-channel: f.done.Dir == reflect.SelectRecv && rvIface(f.done.Chan) == old(interp.done)
 //@   requires [C10] root-current: cf == nil ==> interp.frame.id == interp.id
 //@   requires [C10] parent-current: cf != nil ==> cf.id == interp.id
 
